@@ -7,11 +7,11 @@ CONSTANTS
   MaxDepth = 4
   MaxChain = 3
   SysIdx = {1,3,4,7,10,13,14}
-  AddedIdx = {2,7,10}
+  AddedIdx = {7,10}
   EmitMod = 1
   EmitRem = 0
-  FixEnvPath = FALSE
-  FixRelProject = FALSE
+  FixEnvPath = TRUE
+  FixRelProject = TRUE
 INVARIANT InvRoundTrip
 INVARIANT InvSysPath
 INVARIANT InvImport
